@@ -73,8 +73,22 @@ fn insert_links(nodes: &mut Vec<Node>, st: &mut Ins, in_pre: bool) {
                 if !in_pre && w.chars().next().map(|c| c.is_ascii_uppercase()).unwrap_or(false) =>
             {
                 if st.n < st.max && st.rng.below(100) < st.prob {
-                    let href = match st.rng.below(5) {
+                    let href = match st.rng.below(7) {
                         4 => String::new(), // href="" is still a link (with an empty target)
+                        5 => {
+                            // wide characters and characters without a display width (controls,
+                            // zero-width space) inside a target long enough to be wrapped
+                            let mut h = format!("/{}/", st.n);
+                            for _ in 0..st.rng.range(4, 40) {
+                                match st.rng.below(8) {
+                                    0 => h.push(*st.rng.pick(&['\t', '\u{7f}', '\u{1}', '\u{85}', '\n', '\u{200b}'])),
+                                    1 => h.push(*st.rng.pick(&['テ', 'ス', 'ト'])),
+                                    _ => h.push((b'0' + st.rng.below(10) as u8) as char),
+                                }
+                            }
+                            h
+                        }
+                        6 => format!("/{}/{}", st.n, "0123456789".repeat(st.rng.range(1, 6))),
                         0 => format!("/{}", st.n),
                         1 => "/7".to_string(), // repeated target
                         2 => format!("/{}/{}", st.n, 1234567890123u64),
